@@ -43,14 +43,15 @@ def mc(name, mods, deps, evcand, trigcand, injcand, hookcand, prereg=()):
         "c_PreReg == %s" % tla(tuple(prereg)), "===="]) + "\n"
 
 
-def cfg(mgmt, sub, buggy, emit, maxtrig, maxhooks, maxcalls, maxg, maxsteps, invariants=(), view=True):
+def cfg(mgmt, sub, buggy, emit, maxtrig, maxhooks, maxcalls, maxg, maxsteps, invariants=(), view=True, prehold=False,
+        treebuggy=False):
     c = {"Mods": "c_Mods", "Dep": "c_Dep", "EvCand": "c_EvCand", "TrigCand": "c_TrigCand", "InjCand": "c_InjCand",
          "HookCand": "c_HookCand", "PreReg": "c_PreReg"}
     L = ["SPECIFICATION Spec", "CONSTANTS"]
     for k, v in c.items():
         L.append("  %s <- %s" % (k, v))
     for k, v in {"Mgmt": mgmt, "Subscribed": sub, "Buggy": buggy, "Emit": emit, "MaxTrig": maxtrig, "MaxHooks": maxhooks,
-                 "MaxCalls": maxcalls, "MaxG": maxg, "MaxSteps": maxsteps}.items():
+                 "MaxCalls": maxcalls, "MaxG": maxg, "MaxSteps": maxsteps, "PreHold": prehold, "TreeBuggy": treebuggy}.items():
         L.append("  %s = %s" % (k, vlib.tla_value(v)))
     for i in invariants:
         L.append("INVARIANT %s" % i)
@@ -74,15 +75,18 @@ def B(name, mgmt, sub, mods, deps, ev, tg, ij, hk, pre, mt, mh, mcalls, mg, ms):
 
 
 BFS_QUICK = [
-    B("plain2", False, True, ["S", "H"], {}, [], [E1], [], [], [("H", E1)], 2, 1, 2, 6, 8),
-    B("mgmt2", True, False, ["S", "H"], {}, [], [E1], [], [], [("H", E1)], 1, 1, 2, 3, 10),
+    B("plain2", False, True, ["S", "H"], {}, [], [E1], [], [], [("H", E1)], 1, 1, 2, 4, 9),
+    B("mgmt2", True, False, ["S", "H"], {}, [], [E1], [], [], [("H", E1)], 1, 1, 2, 3, 12),
+    B("mgmtdep", True, False, ["S", "H"], {"H": ["S"]}, [], [E1], [], [], [("H", E1)], 1, 1, 2, 3, 12),
 ]
 BFS_THOROUGH = BFS_QUICK + [
     B("plain2reg", False, True, ["S", "H"], {}, [E1], [E1], [], [("H", E1)], [], 1, 1, 2, 4, 8),
-    B("plain2inj", False, True, ["S", "H"], {}, [], [E1], [E1], [], [("H", E1)], 2, 1, 2, 6, 9),
-    B("plain2dep", False, False, ["S", "H"], {"H": ["S"]}, [], [E1, EX], [], [], [("H", E1)], 2, 1, 2, 6, 9),
-    B("mgmt2b", True, False, ["S", "H"], {}, [], [E1], [], [], [("H", E1)], 1, 1, 3, 3, 12),
+    B("plain2inj", False, True, ["S", "H"], {}, [], [], [E1], [], [("H", E1)], 1, 1, 2, 4, 9),
+    B("plain2dep", False, False, ["S", "H"], {"H": ["S"]}, [], [E1, EX], [], [], [("H", E1)], 2, 1, 2, 6, 8),
+    B("mgmt2b", True, False, ["S", "H"], {}, [], [E1], [], [], [("H", E1)], 1, 1, 3, 3, 14),
     B("plain2hooks", False, False, ["S", "H"], {}, [], [E1], [], [], [("H", E1), ("S", E1)], 1, 2, 2, 5, 10),
+    B("mgmt2inj", True, False, ["S", "H"], {}, [], [E1], [E1], [], [("H", E1)], 2, 1, 2, 4, 9),
+    B("plain2two", False, False, ["S", "H"], {}, [], [E1], [], [], [("H", E1)], 2, 1, 2, 4, 8),
 ]
 INV = ["NoReject", "CountersOK", "NotBeforeStart"]
 
@@ -91,54 +95,72 @@ SIM = [
     ("simA", False, True, ["S", "H"], {}, [E1, E2], [E1, E2, EX], [E1, XE, EX], [("H", E1), ("S", E1), ("H", E2), ("H", XE), ("H", EX)]),
     ("simB", False, True, ["S", "H", "J"], {"H": ["S"]}, [E1, E2, HE], [E1, E2, HE], [E1, HE], [("H", E1), ("J", E1), ("S", HE), ("J", E2), ("H", E1)]),
     ("simC", True, True, ["S", "H"], {}, [E1, E2], [E1, E2, EX], [E1, XE], [("H", E1), ("S", E1), ("H", E2)]),
-    ("simD", True, False, ["S", "H", "J"], {}, [E1, HE], [E1, HE], [E1, HE], [("H", E1), ("J", E1), ("S", HE), ("J", HE)]),
+    ("simD", True, False, ["S", "H", "J"], {"H": ["S"]}, [E1, HE], [E1, HE], [E1, HE], [("H", E1), ("J", E1), ("S", HE), ("J", HE)]),
     ("simE", False, False, ["S", "H", "J"], {"H": ["J"], "S": []}, [E1], [E1], [E1], [("H", E1), ("J", E1), ("S", E1)]),
+    # isolation: two blocking hooks on the same event are there from the beginning
+    ("simF", False, True, ["S", "H"], {}, [], [E1], [], [], [("H", E1), ("S", E1)], 13, 2),
+    ("simG", True, False, ["S", "H", "J"], {}, [], [E1], [E1], [], [("H", E1), ("J", E1)], 16, 2),
+    # module management with modules that run only as a dependency of an enabled module
+    ("simH", True, True, ["S", "H", "J"], {"J": ["H"], "H": ["S"]}, [], [E1, HE], [], [], [("H", E1), ("J", E1), ("J", HE)], 16),
 ]
 
 
+# fault variants of the model: (configuration, constant that switches the pinned code's behaviour on)
+MGMTDEP = B("mgmtdep", True, False, ["S", "H"], {"H": ["S"]}, [], [E1], [], [], [("H", E1)], 1, 1, 2, 3, 12)
+FAULTS = [(BFS_QUICK[0], "Buggy"), (MGMTDEP, "TreeBuggy")]
+
+
 def model_check(ctx, quick):
-    """Exhaustive runs: the design (Buggy = FALSE) satisfies the monitor and the direct invariants on every interleaving;
-    the fault variant (Buggy = TRUE, the wait as written in the pinned code) must be rejected - its counterexamples are
-    returned as directed scripts."""
-    runs = [(r, False) for r in (BFS_QUICK if quick else BFS_THOROUGH)] + [(BFS_QUICK[0], True)]
-    par = 3 if quick else 2
+    """Exhaustive runs: the design (no fault constant set) satisfies the monitor and the direct invariants on every
+    interleaving; each fault variant (the code as pinned: hook wait / buildEnabledTree) must be rejected - the
+    counterexamples are returned as directed scripts."""
+    runs = [(r, None) for r in (BFS_QUICK if quick else BFS_THOROUGH)] + FAULTS
+    par = 4 if quick else 1
 
     def one(a):
-        c, buggy = a
-        return ctx.tlc("EventsMC", cfg_text=cfg(c["mgmt"], c["sub"], buggy, False, c["mt"], c["mh"], c["mcalls"], c["mg"], c["ms"],
-                                               ["NoRejectPrint"] if buggy else INV),
+        c, fault = a
+        return ctx.tlc("EventsMC", cfg_text=cfg(c["mgmt"], c["sub"], fault == "Buggy", False, c["mt"], c["mh"], c["mcalls"], c["mg"],
+                                               c["ms"], ["NoRejectPrint"] if fault else INV, treebuggy=fault == "TreeBuggy"),
                        files={"EventsMC.tla": mc("EventsMC", c["mods"], c["deps"], c["ev"], c["tg"], c["ij"], c["hk"], c["pre"])},
-                       workers=max(2, vlib.NCPU // par), timeout=3000, want_ok=not buggy, count=not buggy)
+                       workers=max(2, vlib.NCPU // par), timeout=3000, want_ok=not fault, count=not fault)
     res = ctx.pmap(one, runs, par=par)
-    r = res[-1]
-    if r.violated != "NoRejectPrint":
-        raise vlib.Inconclusive("the fault variant of spec/Events.tla (Buggy = TRUE) is not rejected by the monitor: "
-                                "the model lost its sensitivity\n" + "\n".join(r.out.splitlines()[-20:]))
     cex = []
     seen = set()
-    for s in r.emitted():
-        h = vlib.sha(s)
-        if h not in seen:
-            seen.add(h)
-            s["origin"] = "cex"
-            cex.append(s)
-    if not cex:
-        raise vlib.Inconclusive("no counterexample script printed by the fault variant")
-    return res[:-1], cex
+    for (c, fault), r in zip(runs, res):
+        if not fault:
+            continue
+        if r.violated != "NoRejectPrint":
+            raise vlib.Inconclusive("the fault variant %s of spec/Events.tla is not rejected by the monitor: the model lost its "
+                                    "sensitivity\n%s" % (fault, "\n".join(r.out.splitlines()[-20:])))
+        got = 0
+        for s in r.emitted():
+            h = vlib.sha(s)
+            if h not in seen:
+                seen.add(h)
+                s["origin"] = "cex-" + fault
+                cex.append(s)
+                got += 1
+        if not got:
+            raise vlib.Inconclusive("no counterexample script printed by the fault variant %s" % fault)
+    return res[:-len(FAULTS)], cex
 
 
 def gen_scripts(ctx, quick):
-    per = 160 if quick else 1500
+    per = 120 if quick else 1500
     jobs = []
     for i, s in enumerate(SIM):
         jobs.append((i, s, False, per))
         jobs.append((i, s, True, per // 2))
 
     def one(j):
-        i, (name, mgmt, sub, mods, deps, ev, tg, ij, hk), buggy, num = j
-        r = ctx.tlc("EventsMC", cfg_text=cfg(mgmt, sub, buggy, True, 4, 4, 4, 14, 14 if quick else 18),
-                    files={"EventsMC.tla": mc("EventsMC", mods, deps, ev, tg, ij, hk)}, mode="simulate", num=num,
-                    depth=140, seed=ctx.seed * 131 + i * 2 + (1 if buggy else 0), timeout=1500, count=False)
+        i, sim, buggy, num = j
+        name, mgmt, sub, mods, deps, ev, tg, ij, hk = sim[:9]
+        pre = sim[9] if len(sim) > 9 else []
+        ms = sim[10] if len(sim) > 10 else (18 if quick else 24)   # configurations with few possible steps end earlier
+        mt = sim[11] if len(sim) > 11 else 4
+        r = ctx.tlc("EventsMC", cfg_text=cfg(mgmt, sub, buggy, True, mt, 4, 4, 16, ms, prehold=bool(pre), treebuggy=buggy),
+                    files={"EventsMC.tla": mc("EventsMC", mods, deps, ev, tg, ij, hk, pre)}, mode="simulate", num=num,
+                    depth=320 if quick else 500, seed=ctx.seed * 131 + i * 2 + (1 if buggy else 0), timeout=1500, count=False)
         out = []
         for s in r.emitted():
             if buggy and not s.get("rej"):
@@ -187,6 +209,49 @@ def sig_of(script, hist, ej):
         str(any(o in ("trig", "inject") for o in ops[:ops.index("start")]) if "start" in ops else False).lower())
 
 
+STATS = {}
+
+
+def describe(hist):
+    """Descriptive counters of what the run exercised (evidence only, no verdict)."""
+    def inc(k):
+        STATS[k] = STATS.get(k, 0) + 1
+    phase, trig_phase, stopped, held = {}, {}, set(), set()
+    hookmod = {}
+    begun = set()
+    for e in hist:
+        k = e.get("e")
+        if k == "sfbegin":
+            phase[e["m"]] = "starting"
+        elif k == "sfend":
+            phase[e["m"]] = "started"
+        elif k == "reghook" and e.get("ok"):
+            hookmod[e["k"]] = e["hm"]
+        elif k == "reghook":
+            inc("hook_registrations_refused")
+        elif k == "call" and e["kind"] in ("manage", "shutdown"):
+            inc("stop_passes")
+        elif k in ("trig", "inject"):
+            inc("triggers" if k == "trig" else "injects")
+            trig_phase[e["t"]] = dict(phase)
+        elif k == "injret" and not e.get("ok"):
+            inc("injects_refused")
+        elif k == "hbegin":
+            inc("hook_executions")
+            begun.add((e["t"], e["k"]))
+            hm = hookmod.get(e["k"])
+            if trig_phase.get(e["t"], {}).get(hm) != "started":
+                inc("hook_executions_delayed_until_start")
+        elif k == "hend":
+            begun.discard((e["t"], e["k"]))
+        elif k == "sub":
+            inc("subscription_calls")
+        elif k == "sync":
+            inc("syncs")
+            if begun:
+                inc("syncs_with_a_hook_still_running")
+
+
 def judge(ctx, scripts):
     """Execute, validate; what is rejected is executed once more with ten times the patience before it counts."""
     hists, owner, crashed = execute(ctx, scripts)
@@ -195,6 +260,8 @@ def judge(ctx, scripts):
                       {"script": scripts[i], "observed": evs})
     ok, rej, unex = vlib.validate(ctx, "EventsTrace", "EventsTrace.cfg", hists)
     nev = sum(len(h) for h in hists)
+    for h in hists:
+        describe(h)
     again = sorted({owner[hi] for hi, _, _ in rej})
     if again:
         sub = [scripts[i] for i in again]
@@ -228,11 +295,11 @@ def run(ctx):
         "states": sum(r.distinct for r in mcs), "transitions": sum(r.generated for r in mcs),
         "traces_validated_against_impl": ok,
         "evaluations": len(scripts), "distinct_nontrivial": nontriv,
-        "rule": "driver scripts = behaviours of spec/Events.tla projected to the driver steps (TLC -simulate, 5 configurations: "
+        "rule": "driver scripts = behaviours of spec/Events.tla projected to the driver steps (TLC -simulate, 8 configurations: "
                 "2-3 modules, dependencies, module management, several events, unknown names, InjectEvent) plus directed scripts: "
                 "counterexamples of the fault variant (Buggy = TRUE) found by TLC exhaustively and in simulation; non-trivial = "
                 "registers a hook and triggers/injects an event; distinct by content hash",
-        "directed_scripts": directed, "observations_validated": nev, "scripts_retried_with_patience": retried,
+        "directed_scripts": directed, "exercised": dict(STATS), "observations_validated": nev, "scripts_retried_with_patience": retried,
         "histories_unexamined_after_rejections": unex,
         "samples": [strip(scripts[0]), strip(scripts[-1])],
         "exhaustive": False,
